@@ -15,6 +15,8 @@ package keyed
 //   callback 1 in execute: the managed function is entered only after the predecessor channel was closed
 //   rlast(rr)  the exitedCh of the instance most recently started for record rr's key chain (a record
 //       created by ResetRoutine inherits it from the record it replaces); it changes only under k.mtx
+//   D1  a pending removal timer belongs to the record that carries it (trec, set where remove() arms the timer): its
+//       callback acts only on that record, so a timer handed to another record would never remove anything
 //   H2  every record in the map carries the head of its chain: its exitedCh is rlast, or rlast is closed
 //   go 1 in start: a new instance is given rlast as predecessor
 //   SetKey.keepretry: a non-restarting SetKey leaves a pending retry timer alone
@@ -27,6 +29,7 @@ package keyed
 //@ ghostmap xfin: ref -> ref owned
 //@ ghostmap xdone: ref -> bool by xfin
 //@ ghostmap recof: ref -> ref once
+//@ ghostmap trec: ref -> ref once
 //@ ghostmap addedidx: any -> int local
 //@ ghostmap removedidx: any -> int local
 //@ ghostmap kidx: any -> int local
@@ -45,6 +48,8 @@ package keyed
 //@   inv R1[C07]: forall rr: *runningRoutine {rr.k} :: rr.k == this && rr.ctx != nil && !rr.exited ==> rr.exitedCh != nil && chof(rr.ctx) == rr.exitedCh
 //@   inv R2[C07]: forall rr: *runningRoutine {rr.k} :: rr.k == this && rr.ctx != nil && rr.exited ==> chof(rr.ctx) != nil && xdone(chof(rr.ctx))
 //@   inv D0[C06]: forall rr: *runningRoutine {rr.k} :: rr.k == this && rr.deferRemove != nil ==> this.releaseDelay != 0
+//@   inv D1[C06 C07]: forall rr: *runningRoutine {rr.k} :: rr.k == this && rr.deferRemove != nil ==> trec(rr.deferRemove) == rr
+//@   stable SD1: forall rr: *runningRoutine {rr.k} :: rr.k == this && rr.deferRemove != nil ==> trec(rr.deferRemove) == rr
 //@   inv X1[C07]: forall rr: *runningRoutine {rr.k} :: rr.k == this && rr.ctx != nil && !cancelled(rr.ctx) ==> rr.ctxCancel != nil && cancelOf(rr.ctxCancel) == rr.ctx
 //@   inv X2[C07]: forall rr: *runningRoutine {rr.k} :: rr.k == this && rr.ctx != nil && !cancelled(rr.ctx) ==> in(this.routines, rr.key) && this.routines[rr.key] == rr && this.ctx != nil && ctxparent(rr.ctx) == this.ctx
 //@   inv X3[C07]: forall rr: *runningRoutine, c: ref {recof(c), rr.k} :: rr != nil && c != nil && recof(c) == rr && rr.k == this && !cancelled(c) ==> rr.ctx == c
@@ -108,6 +113,7 @@ package keyed
 //
 //@ closure (*runningRoutine).remove
 //@   props C06 C07
+//@   ghost aftercall AfterFunc: trec(ret) := r
 //
 //@ closure (*runningRoutine).remove$1
 //@   props C06 C07
@@ -186,6 +192,7 @@ package keyed
 //@   loop 1 invariant records: forall rr: *runningRoutine {rr.k} :: rr.k == k && rr.ctx != nil ==> chof(rr.ctx) != nil && ((!rr.exited ==> rr.exitedCh != nil && chof(rr.ctx) == rr.exitedCh) && (rr.exited ==> xdone(chof(rr.ctx))))
 //@   loop 1 invariant entries: forall key: any {k.routines[key]} :: in(k.routines, key) ==> k.routines[key] != nil && k.routines[key].k == k && k.routines[key].key == key
 //@   loop 1 invariant timers: forall rr: *runningRoutine {rr.k} :: rr.k == k && rr.deferRemove != nil ==> k.releaseDelay != 0
+//@   loop 1 invariant timerrec: forall rr: *runningRoutine {rr.k} :: rr.k == k && rr.deferRemove != nil ==> trec(rr.deferRemove) == rr
 //@   loop 1 invariant livecancel[C07]: forall rr: *runningRoutine {rr.k} :: rr.k == k && rr.ctx != nil && !cancelled(rr.ctx) ==> rr.ctxCancel != nil && cancelOf(rr.ctxCancel) == rr.ctx
 //@   loop 1 invariant liveinmap[C07]: forall rr: *runningRoutine {rr.k} :: rr.k == k && rr.ctx != nil && !cancelled(rr.ctx) ==> in(k.routines, rr.key) && k.routines[rr.key] == rr && k.ctx != nil && ctxparent(rr.ctx) == k.ctx
 //@   loop 1 invariant liverec[C07]: forall rr: *runningRoutine, c: ref {recof(c), rr.k} :: rr != nil && c != nil && recof(c) == rr && rr.k == k && !cancelled(c) ==> rr.ctx == c
@@ -202,6 +209,7 @@ package keyed
 //@   loop 2 invariant records: forall rr: *runningRoutine {rr.k} :: rr.k == k && rr.ctx != nil ==> chof(rr.ctx) != nil && ((!rr.exited ==> rr.exitedCh != nil && chof(rr.ctx) == rr.exitedCh) && (rr.exited ==> xdone(chof(rr.ctx))))
 //@   loop 2 invariant entries: forall key: any {k.routines[key]} :: in(k.routines, key) ==> k.routines[key] != nil && k.routines[key].k == k && k.routines[key].key == key
 //@   loop 2 invariant timers: forall rr: *runningRoutine {rr.k} :: rr.k == k && rr.deferRemove != nil ==> k.releaseDelay != 0
+//@   loop 2 invariant timerrec: forall rr: *runningRoutine {rr.k} :: rr.k == k && rr.deferRemove != nil ==> trec(rr.deferRemove) == rr
 //@   loop 2 invariant livecancel[C07]: forall rr: *runningRoutine {rr.k} :: rr.k == k && rr.ctx != nil && !cancelled(rr.ctx) ==> rr.ctxCancel != nil && cancelOf(rr.ctxCancel) == rr.ctx
 //@   loop 2 invariant liveinmap[C07]: forall rr: *runningRoutine {rr.k} :: rr.k == k && rr.ctx != nil && !cancelled(rr.ctx) ==> in(k.routines, rr.key) && k.routines[rr.key] == rr && k.ctx != nil && ctxparent(rr.ctx) == k.ctx
 //@   loop 2 invariant liverec[C07]: forall rr: *runningRoutine, c: ref {recof(c), rr.k} :: rr != nil && c != nil && recof(c) == rr && rr.k == k && !cancelled(c) ==> rr.ctx == c
